@@ -6,6 +6,7 @@ import cssutils.css as css
 BAD_VALUE, BAD_PRIO = "#bad", "#badprio"
 PROBES = ["color", "COLOR", "c~olor", "left", "lef~t", "top"]
 COMMENTS = [False]
+ASOBJ = [False]     # variant: set/add hand a constructed Property OBJECT to setProperty instead of name, value, priority
 
 
 def value_text(v):
@@ -63,6 +64,10 @@ def decl_text(d):
 
 def apply(style, a):
     op = a["op"]
+    if ASOBJ[0] and op in ("set", "add"):
+        # the Property constructor itself rejects a malformed value / priority (raising mode): nothing reaches the block
+        return outcome(lambda: style.setProperty(css.Property(unesc(a["lit"]), value_text(a["value"]), prio_text(a["prio"])),
+                                                 replace=(op == "set")))
     if op == "set":
         return outcome(lambda: style.setProperty(unesc(a["lit"]), value_text(a["value"]), prio_text(a["prio"])))
     if op == "add":
@@ -91,6 +96,7 @@ def run_trace(item):
     """item = {'id':..., 'actions': [...]} -> trace record for DeclBlockTrace"""
     init()
     COMMENTS[0] = bool(item.get("comments"))
+    ASOBJ[0] = bool(item.get("asobj"))
     style = CSSStyleDeclaration()
     tr = {"id": item["id"], "init": project(style), "steps": []}
     for a in item["actions"]:
